@@ -65,6 +65,13 @@ def path_class(path: str) -> str:
 # ---------------------------------------------------------------------------------------------------
 # operations an actor can commit
 # ---------------------------------------------------------------------------------------------------
+_CURRENT: List[Any] = [None]
+
+
+def S_current() -> Any:
+    return _CURRENT[0]
+
+
 def make_actor(table_path: str, op: Dict[str, Any], shared_table: Any = None, style: str = "with") -> Callable[[], Any]:
     """op kinds: append{rows}, expire{cutoff}, delete_snapshot{which: 'old'|'current'|id}, delete_files{paths}."""
     import datashard
@@ -93,6 +100,39 @@ def make_actor(table_path: str, op: Dict[str, Any], shared_table: Any = None, st
                 tx.delete_files(op["paths"])
                 tx.commit()
             return "ok"
+        if k == "multi_append":
+            with t.new_transaction() as tx:
+                for rows in op["batches"]:
+                    tx.append_data(rows)
+                tx.commit()
+            return "ok"
+        if k == "rollback_txn":
+            tx = t.new_transaction().begin()
+            tx.append_data(op["rows"])
+            tx.rollback()
+            return "rolledback"
+        if k == "read":
+            out = []
+            sched = S_current()
+            for api in op["apis"]:
+                sched.yield_point("ReadStart", api)
+                if api == "scan":
+                    rows = t.scan()
+                elif api == "scan_parallel":
+                    rows = t.scan(parallel=2)
+                elif api == "scan_noverify":
+                    rows = t.scan(verify_checksums=False)
+                elif api == "scan_batches":
+                    rows = [r for b in t.scan_batches(batch_size=1) for r in b]
+                elif api == "iter_records":
+                    rows = list(t.iter_records())
+                elif api == "row_count":
+                    rows = t.row_count()
+                else:
+                    raise ValueError(api)
+                sched.yield_point("ReadEnd", api)["result"] = rows if isinstance(rows, int) else sorted(r["x"] for r in rows)
+                out.append((api, rows if isinstance(rows, int) else sorted(r["x"] for r in rows)))
+            return out
         raise ValueError(k)
     return body
 
@@ -158,6 +198,7 @@ class CaseResult:
         self.initial: Dict[str, Any] = {}
         self.deadlock: Optional[str] = None
         self.after: Any = None
+        self.states: List[Dict[str, Any]] = []
         self.store: Any = None
 
 
@@ -172,6 +213,7 @@ def run_case(scratch: str, case: Dict[str, Any], chooser_factory: Callable[[S.Sc
     shutil.rmtree(root, ignore_errors=True)
     res = CaseResult()
     sc = S.Scheduler()
+    _CURRENT[0] = sc
     sc.yield_filter = case.get("yield_filter", protocol_yield_filter)
     lock_mode = case.get("lock", "real")
     backend_kind = case.get("backend", "local")          # local | s3cas | s3nocas
@@ -229,8 +271,18 @@ def run_case(scratch: str, case: Dict[str, Any], chooser_factory: Callable[[S.Sc
                 a.inject = inject[a.name]
         nsteps = [0]
 
+        res.states = [{"rows": sorted(r["x"] for r in res.initial["rows"]), "nsnap": len(res.initial["snapshot_order"])}]
+        seen_flips = [0]
+
         def hook(_a: S.Actor) -> None:
             nsteps[0] += 1
+            if case.get("track_states"):
+                nf = sum(1 for e in sc.log if e["op"] in ("write_file", "write_file_cas") and path_class(e["path"]) == "hint"
+                         and e["result"] == "ok")
+                while seen_flips[0] < nf:
+                    seen_flips[0] += 1
+                    st = read_table_independent(reader_root)
+                    res.states.append({"rows": sorted(r["x"] for r in st["rows"]), "nsnap": len(st["snapshot_order"])})
             if clock == "tick":
                 sc.clock_ms += 1
             elif clock == "coarse" and nsteps[0] % 7 == 0:
